@@ -55,3 +55,10 @@ Proof.
       split; [|reflexivity]. simpl. rewrite Forall_forall in Ho. exact (Ho o (nth_error_In _ _ E)). }
   split; [exact (NJ_prom c HN)|]. intros t th Hth. exact (proj2 (NJ_thr c HN t th Hth)).
 Qed.
+
+(* with zero Joins the precondition of Join holds vacuously: the chain theorems apply to every promise on its own *)
+Lemma no_join_ordered : forall ops, Forall no_join_op ops -> join_ordered ops.
+Proof.
+  intros ops H. unfold join_ordered. eapply Forall_impl; [|exact H].
+  intros o Ho. destruct o; simpl in *; auto; contradiction.
+Qed.
